@@ -58,7 +58,7 @@ func (g *tplGen) expr(depth int) string {
 	if depth <= 0 {
 		return g.atom()
 	}
-	switch g.r.Intn(15) {
+	switch g.r.Intn(16) {
 	case 0, 1:
 		return g.atom()
 	case 2, 3, 4:
@@ -71,6 +71,13 @@ func (g *tplGen) expr(depth int) string {
 		return g.expr(depth-1) + "[" + g.expr(depth-1) + "]"
 	case 8:
 		return hx.Pick(g.r, ctxPaths) + "." + hx.Pick(g.r, []string{"name", "value", "0", "1", "99", "uuid", "nope", "__default__", "extra"})
+	case 13:
+		// a size-doubling (or value-sharing) function applied k times to a seed, and a consumer of the result
+		k := g.r.Range(3, 45)
+		body := hx.Pick(g.r, []string{"x & x", "array(x, x)", "object(\"a\", x, \"b\", x)", "x & \"-\" & x", "array(x, 1, x)", "join(array(x, x), x)", "replace(x, \"a\", x)", "x + x", "x * x"})
+		seed := hx.Pick(g.r, []string{"\"a\"", "1", "array(1)", "contact.name", "\"\"", "2"})
+		use := hx.Pick(g.r, []string{"text_length(%s)", "text(%s)", "json(%s)", "count(%s)", "format(%s)", "%s = 1", "unique(array(%s, %s))", "is_error(%s)", "%s", "contains(array(%s), 1)", "sort(array(%s, %s))"})
+		return "((d) => " + strings.ReplaceAll(use, "%s", strings.Repeat("d(", k)+seed+strings.Repeat(")", k)) + ")((x) => " + body + ")"
 	case 12:
 		// an anonymous function applied on the spot, possibly to itself or to another function value
 		body := hx.Pick(g.r, []string{"x", "x(x)", "x(1)", "x(x)(x)", "(y) => x(y)", "(y) => x(x(y))", "x & \"a\"", "x + 1", "foreach(array(1, 2), x)"})
@@ -161,6 +168,16 @@ func tplCorpus() []string {
 		"@(foreach(array(1, 2, 3), (x) => ((f) => f(f))((f) => f(f))))", "@(((f, n) => f(f, n))((f, n) => f(f, n + 1), 0))", "@(((x) => x)((x) => x)(5))", "@(((f) => f)(upper)(\"a\"))",
 		"@(2 ^ 99999999999)", "@(7 ^ 999999999 > 1)", "@(9999999999999999999999999999999999999999999999999999999999999999 ^ 9999999999999999999999999999999999999999999999999999999999999.5)",
 		"@(2 ^ 100000)", "@(2 ^ 100001)", "@(123456789.5 ^ 100000)", "@(repeat(\"x\", 2147483647))", "@(repeat(\"ab\", 50000))", "@(repeat(\"ab\", 50001))", "@(text_length(repeat(\"x\", 999999999)))")
+	// texts and values that double: 2^36 characters from a 150 character template, two capped texts multiplied,
+	// shared sub-values (41 small arrays, 2^40 leaves to walk), regular expressions whose cost is text x program size
+	dd := func(k int, seed string) string { return strings.Repeat("d(", k) + seed + strings.Repeat(")", k) }
+	lits = append(lits, "@(((d) => text_length("+dd(36, "\"x\"")+"))((x) => x & x))", "@(replace(repeat(\"x\", 100000), \"\", repeat(\"y\", 100000)))",
+		"@(text_length(join(split(repeat(\"a \", 50000), \" \"), repeat(\"y\", 100000))))", "@(count(foreach(split(repeat(\"a \", 50000), \" \"), (x) => repeat(\"b\", 100000))))",
+		"@(((d) => text("+dd(40, "1")+"))((x) => array(x, x)))", "@(((d) => json("+dd(40, "1")+"))((x) => array(x, x)))", "@(((d) => "+dd(40, "1")+" = 1)((x) => array(x, x)))",
+		"@(((d) => count(unique(array("+dd(40, "1")+", "+dd(40, "1")+"))))((x) => array(x, x)))", "@(((d) => json("+dd(40, "1")+"))((x) => object(\"a\", x, \"b\", x)))",
+		"@(((d) => format("+dd(30, "1")+"))((x) => array(x, x)))", "@(((d) => contains(array("+dd(40, "1")+"), 1))((x) => array(x, x)))",
+		"@(has_pattern(repeat(\"a\", 100000), repeat(\"(a?){1000}\", 50) & \"b\"))", "@(regex_match(repeat(\"a\", 100000), repeat(\"(a?){1000}\", 50) & \"b\"))",
+		"@(has_pattern(repeat(\"a\", 1000), repeat(\"(a?){1000}\", 100)))", "@(((d) => text_length("+dd(10, "\"x\"")+"))((x) => x & x))")
 	// very deep nesting: parentheses, unary minus, operator and lookup chains (the generated parser, the visitor and
 	// Evaluate recurse once per level)
 	lits = append(lits, "@("+strings.Repeat("(", 600000)+"1"+strings.Repeat(")", 600000)+")", "@("+strings.Repeat("-", 1500000)+"1)", "@("+strings.Repeat("1+", 300000)+"1)",
